@@ -140,6 +140,17 @@ CHECKS = {
              "triples, packing byte order lane by lane, float-to-u8 clamping and saturating addition.",
         design="DESIGN.md §5 C16",
         note=TRUST + "; per-row aggregation and 2^20 scaling in harness/src/color.rs"),
+    "C20": dict(
+        technique="TLA+ spec Float over exactly decoded f32 values (floor/abs exact, rem_euclid range+congruence, per-backend "
+                  "bounds against std); TLC checks the floor specification and the truncate-and-adjust algorithm on a "
+                  "structured lattice; trace validation of four feature builds of a probe, with consumers joined across builds",
+        text="TLC checks the exact floor definition and contrasts two floor algorithms over all signs, exponents and "
+             "significand patterns; the probe is built against retrofire-core with no fp feature, libm, mm and std, and "
+             "every recorded call (exact functions on structured and random bit patterns, approximate ones against std in "
+             "the same process) is judged by TLC; scanline digests, texels, normalised vectors and wrapped angles are "
+             "joined across the four builds and must agree.",
+        design="DESIGN.md §5 C20",
+        note=TRUST + "; std's libm on this machine is the oracle the statement names"),
 }
 
 NOT_YET = "check not built yet in this round (see DESIGN.md §9 for the order of work)"
